@@ -47,7 +47,7 @@ var seededACS = []string{
 
 func genC02Case(t *rapid.T) C02Case {
 	spec := genSSOWorld(t, worldOpts{bindings: []string{world.BindPost, world.BindRedirect, world.BindPost, world.BindRedirect, world.BindArtifact}, minACS: 1, maxACS: 4, maxSPs: 3, customSSO: true, issuerModes: []string{"static", "host"}})
-	c := C02Case{Flow: rapid.SampledFrom([]string{"sso", "sso", "sso", "logout", "callback"}).Draw(t, "flow")}
+	c := C02Case{Flow: rapid.SampledFrom([]string{"sso", "sso", "sso", "logout", "callback", "reregister"}).Draw(t, "flow")}
 	s := SSOCase{Spec: spec, Host: rapid.SampledFrom(reqHosts).Draw(t, "host")}
 	s.SP = rapid.IntRange(0, len(spec.SPs)-1).Draw(t, "sp")
 	s.Style = genXMLStyle(t)
@@ -65,7 +65,12 @@ func genC02Case(t *rapid.T) C02Case {
 	switch c.Flow {
 	case "sso":
 		s.Req = genValidAuthn(t, spec, s.SP, s.Host)
-		switch rapid.IntRange(0, 3).Draw(t, "acsurl") {
+		switch rapid.IntRange(0, 4).Draw(t, "acsurl") {
+		case 4:
+			// a registered location with something appended: must not be taken for the registered one
+			own := pick(t, "ownacs", spec.SPs[s.SP].ACS).Location
+			s.Req.ACSURL = own + rapid.SampledFrom([]string{"/../../redirect?to=https://" + attackerMark + ".example", "." + attackerMark + ".example/acs", "@" + attackerMark + ".example/", "?next=" + attackerMark, "#" + attackerMark, "%2F..%2F" + attackerMark, "x" + attackerMark}).Draw(t, "acssuffix")
+			c.Channels = append(c.Channels, "AssertionConsumerServiceURL=registered+suffix")
 		case 0:
 			s.Req.ACSURL = att("acsurl-att")
 			c.Channels = append(c.Channels, "AssertionConsumerServiceURL")
@@ -130,6 +135,10 @@ func genC02Case(t *rapid.T) C02Case {
 			c.LogoutTr.Encoding = spsim.EncodingDeflate
 		}
 		c.LogoutTr.Extra = extra()
+	case "reregister":
+		s.Req = genValidAuthn(t, spec, s.SP, s.Host)
+		s.Tr = genTransport(t, rapid.SampledFrom([]string{"post", "redirect"}).Draw(t, "transport"))
+		c.Channels = []string{"re-registration"}
 	case "callback":
 		seed := world.RequestSpec{
 			ID: "seeded-1", AppID: spec.SPs[s.SP].AppID, RelayState: rapid.SampledFrom(relayStates[1:]).Draw(t, "srs"),
@@ -356,6 +365,56 @@ func c02Run(c C02Case) c02Result {
 			}
 		}
 		add(c02CheckReply("logout", rep, allowed, true))
+	case "reregister":
+		// 1. the SP is used once (whatever the IdP remembers about it is now warm)
+		sp := spec.SPs[s.SP]
+		logout := func() obs.Reply {
+			l := spsim.NewLogoutReq("_c02-logout", sp.EntityID, "usermark0")
+			hr, _, _ := spsim.Encode(spec.IdP.Route("slo"), xt.Write(l.Rendered(time.Now()).Tree(s.Style), s.Style.W), spsim.Transport{Binding: "post", Plus: true, Encoding: A, RelayState: "rs"}, nil)
+			hr.Host = s.Host
+			return obs.Do(w.Handler, hr)
+		}
+		sso := func() obs.Reply {
+			hr, _, err := ssoRender(s, time.Now())
+			if err != nil {
+				panic("harness: " + err.Error())
+			}
+			return obs.Do(w.Handler, hr)
+		}
+		note(sso())
+		note(logout())
+		// 2. the SP re-registers with moved endpoints
+		moved := sp
+		moved.ACS = nil
+		for i, a := range sp.ACS {
+			moved.ACS = append(moved.ACS, world.ACSSpec{Binding: a.Binding, Location: fmt.Sprintf("https://sp%d.example/moved/acs/%d", s.SP, i), Index: a.Index, IsDefault: a.IsDefault})
+		}
+		moved.SLO = []world.SLOSpec{{Binding: world.BindPost, Location: fmt.Sprintf("https://sp%d.example/moved/slo", s.SP)}}
+		if err := w.Store.ReplaceSP(moved); err != nil {
+			panic("harness: " + err.Error())
+		}
+		w.Store.ResetLog()
+		// 3. from now on only the new registration counts
+		rep := sso()
+		note(rep)
+		allowed := acsTargets(moved)
+		add(c02CheckReply("sso-after-reregistration", rep, allowed, true))
+		okCalls, _ := createCalls(w)
+		for _, call := range okCalls {
+			res.accepted = true
+			found := false
+			for _, a := range allowed {
+				if a.URL == call.Args[0] && a.Binding == call.Args[1] {
+					found = true
+				}
+			}
+			if !found {
+				add(ev.V("C02/persisted-pair-not-registered", "after re-registration CreateAuthRequest(acs=%q, binding=%q) is not an entry of the current registration %v", call.Args[0], call.Args[1], allowed))
+			}
+		}
+		lrep := logout()
+		note(lrep)
+		add(c02CheckReply("logout-after-reregistration", lrep, []allowedTarget{{moved.SLO[0].Location, world.BindPost}}, true))
 	case "callback":
 		rep := callback(c.Seed.ID)
 		note(rep)
